@@ -68,6 +68,12 @@ CHECKS = {
         note="Extent oracle: 97 samples per segment plus golden-section refinement of every near-top local extremum of the harness' own evaluation of the segment (verified against point(t)); arcs get a conditioning term and their own closure gap. Circle/Ellipse own boxes under non-conformal matrices are KF-ROUNDSHAPE-TRANSFORMED.",
         ref="5/C08",
     ),
+    "C15": dict(
+        technique="property-based testing: generated segments/paths against Gauss-Legendre quadrature (reference), metamorphic isometry/scale/reverse relations, and a recomputed point(t) walk",
+        text="Lines, quadratic and cubic Beziers incl. degenerate classes, circular and eccentric arcs of any extent, and multi-subpath paths: length(error=e) against a two-resolution quadrature of the speed function (lines, closes, quadratics and circular arcs held to max(e, 1e-10 L)); invariance under rotation, translation, reflection and reversal and scaling by |s| (no reference involved); path length = sum of segment lengths with moves contributing 0; point(0), point(1) and point(t) recomputed from the library's own cumulative segment lengths. Exploration.",
+        note="Cubic/eccentric-arc accuracy is the known finding KF-SUBDIVISION-LENGTH: inside that class only under-estimates not shorter than the 64-chord polygon are tolerated. Objects at scale <= 100, error down to 1e-6 (1e-7 thorough): bounded by size and count, not time.",
+        ref="5/C15",
+    ),
 }
 
 REASON_PENDING = "no check registered yet in this build; the design (DESIGN.md section 5) covers it with property-based testing"
